@@ -506,13 +506,14 @@ KEYS = {
     # documented values, and values rejected through both channels (pasfmt.toml and -C); the coercions of the
     # `config` crate (e.g. `wrap_column = true`, `tab_width = 2.0`, `-C use_tabs=yes`) are known finding F20 and
     # exercised separately
-    "wrap_column": (["0", "1", "80", "120", "4294967295"], ["-1", "abc", "4294967296"]),
-    "begin_style": (["auto", "always_wrap"], ["never", "1"]),
+    # values holding a second '=' are ill-typed too: nothing of a -C option may be dropped silently (S125)
+    "wrap_column": (["0", "1", "80", "120", "4294967295"], ["-1", "abc", "4294967296", "40=junk", "80=80"]),
+    "begin_style": (["auto", "always_wrap"], ["never", "1", "auto=always_wrap"]),
     "format_multiline_strings": (["true", "false"], ["abc"]),
-    "use_tabs": (["true", "false"], ["maybe"]),
+    "use_tabs": (["true", "false"], ["maybe", "true=false"]),
     "tab_width": (["0", "2", "4", "255"], ["256", "-1", "x"]),
     "continuation_indents": (["0", "1", "2", "255"], ["256", "x"]),
-    "line_ending": (["lf", "crlf", "native"], ["cr", "1"]),
+    "line_ending": (["lf", "crlf", "native"], ["cr", "1", "lf=crlf"]),
     "encoding": (["utf-8", "native", "windows-1252"], ["no-such-encoding"]),
 }
 DEFAULTS = {"wrap_column": "120", "begin_style": "auto", "format_multiline_strings": "true", "use_tabs": "false",
@@ -668,6 +669,11 @@ def run_c19(ctx):
             eff[k] = v
         for k, v in ovkv:
             eff[k] = v
+        # "ill-typed values are rejected": a value of the rejected lists (rejected through both channels on the unchanged
+        # code) that is still in effect after the layering must not be accepted
+        bad_eff = [(k, v) for k, v in eff.items() if k in KEYS and v in KEYS[k][1]]
+        if ok and bad_eff:
+            ctx.failures.append({"kind": "oracle", "what": "c19: an ill-typed value was accepted: %s=%s" % bad_eff[0], "cfg": " ".join(args), "input_hex": "-", "family": "c19"})
         if ok:
             d2 = os.path.join(ctx.tmp, "g%d_cli" % i)
             os.makedirs(d2)
